@@ -29,6 +29,8 @@ macro_rules! with_world {
         match $name {
             "W2" => $func::<w2::W2>($($arg),*),
             "W2T" => $func::<w2t::W2T>($($arg),*),
+            "W2TU" => $func::<w2t::W2TU>($($arg),*),
+            "W2U" => $func::<w2::W2U>($($arg),*),
             "W2D" => $func::<w2d::W2D>($($arg),*),
             "W3" => $func::<w3::W3>($($arg),*),
             "W1" => $func::<w1::W1>($($arg),*),
@@ -88,11 +90,18 @@ fn plan(prop: &str, tier: Tier) -> Option<Plan> {
         },
         "C16" => Plan {
             level: "fault_enumeration",
-            batches: vec![b("W2T", "docs", 20000, 200000), b("W2T", "bytes", 150000, 2000000), b("W2T", "big", 16, 64)],
+            batches: vec![
+                b("W2T", "docs", 20000, 200000),
+                b("W2T", "bytes", 150000, 2000000),
+                b("W2T", "big", 16, 64),
+                b("W2TU", "big", 24, 96),
+                b("W2TU", "docs", 2000, 20000),
+                b("W2TU", "bytes", 10000, 100000),
+            ],
             assumptions: vec![
                 "truncation and late-join points are enumerated per buffer; documents, byte strings and corruption positions are sampled",
                 "the property's 'exhaustively for all strings up to length 7' is bounded enumeration (model checking) and is deliberately not done here",
-                "built with the sim profile (opt-level 2, overflow checks on for the library): the per-byte recursion of the script-data states is compiled to a loop; unoptimised builds overflow the stack at about 1 MB of script (DESIGN §5)",
+                "two builds: the sim profile (opt-level 2, overflow checks on for the library) and, for the worlds whose name ends in U, the probe profile (library unoptimised: no tail call is turned into a loop, call depth is what the source says) on an 8 MB stack; long constructs (0.2-4 MB of script, comment, attributes, nesting, raw text, doctype, text) must not deepen the stack: the script-data states did until fix 09e5269",
             ],
         },
         "C15" => Plan {
@@ -195,6 +204,9 @@ fn plan(prop: &str, tier: Tier) -> Option<Plan> {
                 b("W2T", "docs", 1500, 30000),
                 b("W2T", "bytes", 8000, 200000),
                 b("W2T", "big", 8, 48),
+                b("W2TU", "big", 10, 48),
+                b("W2U", "codec", 100, 2000),
+                b("W2U", "plain", 200, 4000),
                 b("W2D", "dom", 1500, 30000),
                 b("W3", "ops", 3000, 30000),
                 b("W1", "hist", 1000, 20000),
@@ -205,7 +217,7 @@ fn plan(prop: &str, tier: Tier) -> Option<Plan> {
             assumptions: vec![
                 "monitor, not a model: each library call runs under catch_unwind in a child process with a watchdog; a panic in an extern \"C\" function aborts the child and is attributed to the run by the driver",
                 "hostile values are sampled from fixed pools of known-dangerous shapes plus the generators of the other worlds; this is not coverage-guided fuzzing",
-                "sim profile only (optimised, overflow checks on for the library); allocation failure is not injected",
+                "sim profile (optimised, overflow checks on for the library) everywhere; the tokenizer and the body filter chain also run with the library unoptimised (worlds W2TU, W2U: probe profile, 8 MB stack) so that recursion growing with the input ends as an abort; allocation failure is not injected",
             ],
         },
         _ => return None,
